@@ -256,11 +256,11 @@ def run_reset(d, own=True, seed=0, script=None):
 
 
 # ---------------------------------------------------------------- environments
-def build_env(d):
-    """GridWorld assembled by hand from the registries, exactly as yaml/factory.py does"""
+def build_env(d, reset_override=None):
+    """GridWorld assembled by hand from the registries, exactly as yaml/factory.py does (reset_override: a user-written reset function)"""
     types = [grid_object_registry[t] for t in d['state_types']]
     otypes = [grid_object_registry[t] for t in d['obs_types']]
-    reset = build_reset(d['reset'])
+    reset = build_reset(d['reset']) if reset_override is None else reset_override
     trans = _trf.factory('chain', transition_functions=[_trf.factory(impl.TNAMES[n]) for n in d['trans']])
     obs = build_obs(d['obs'])
     a = area_of(d['obs']['area'])
